@@ -418,6 +418,14 @@ def check(prop, tier, seed, replay):
     if replay:
         return do_replay(prop, cfg, profiles, replay, have_driver)
 
+    # second route (thorough tier): the driver's requests evaluated inside Coq by vm_compute (tools/vmroute.py)
+    if tier == "thorough" and have_driver and prop in ("C13", "C14", "C18") and not replay:
+        rc, o = sh([sys.executable, os.path.join(ROOT, "tools", "vmroute.py"), prop], timeout=2400)
+        checker_cmds.append("python3 tools/vmroute.py %s" % prop)
+        notes.append(o.strip().split("\n")[-1][:400])
+        if rc != 0:
+            broken.append(("vmroute", o[-1500:]))
+
     # correspondence
     reports = {}
     if have_bin and have_driver:
